@@ -9,7 +9,9 @@ Relational check over the derivations of Grammar.tla (the C01 corpus): the canon
      inter-token position,
  (c) END_IF without its optional semicolon,
 must parse to the same library (positions and original spelling ignored) and get the same analysis verdict/codes.
-Declaration/use pairs with differing case are exercised on the units of Unit.tla (unitcheck), when built.
+(d) declaration / use pairs: every unit of Unit.tla's corpus (valid, grown, each planted fault) with its identifiers
+    renamed so that together they use every letter, then every occurrence of every identifier and keyword in a random
+    case of its own: the check verdict and the problem codes must be those of the canonical spelling.
 """
 import os
 import random
@@ -19,10 +21,11 @@ import sys
 sys.path.insert(0, os.path.join(os.path.dirname(os.path.abspath(__file__)), "..", "drivers"))
 import gram  # noqa: E402
 import gramcheck  # noqa: E402
+import unitgen  # noqa: E402
 import vlib  # noqa: E402
 
-QUICK = ["Expr2", "ExprS3", "FbS3", "FbStr3", "ProgStr3", "FuncS3", "ProgS3", "ConfigS5", "Stmt2", "Types3", "Fb2", "Prog2", "Func2", "Sfc3", "Config3"]
-THOROUGH = ["Expr3", "ExprS4", "FbS4", "FbStr4", "ProgStr4", "FuncS4", "ProgS4", "ConfigS5", "Stmt3", "Types4", "Fb3", "Prog3", "Func3", "Sfc4", "Config4", "Lib2"]
+QUICK = ["SwExpr", "SwStmt", "SwTypes", "SwFb", "SwProg", "SwFunc", "SwSfc", "SwConfig","Expr2", "ExprS3", "FbS3", "FbStr3", "ProgStr3", "FuncS3", "ProgS3", "ConfigS5", "Stmt2", "Types3", "Fb2", "Prog2", "Func2", "Sfc3", "Config3"]
+THOROUGH = ["SwExpr", "SwStmt", "SwTypes", "SwFb", "SwProg", "SwFunc", "SwSfc", "SwConfig","Expr3", "ExprS4", "FbS4", "FbStr4", "ProgStr4", "FuncS4", "ProgS4", "ConfigS5", "Stmt3", "Types4", "Fb3", "Prog3", "Func3", "Sfc4", "Config4", "Lib2"]
 
 
 def single_site(ds, rep, cov):
@@ -101,6 +104,103 @@ def single_site(ds, rep, cov):
     cov["keywords_exercised"] = sorted(w for (k, w) in words if k == "kw")
 
 
+RESERVED = set("""TYPE END_TYPE STRUCT END_STRUCT ARRAY OF FUNCTION_BLOCK END_FUNCTION_BLOCK FUNCTION END_FUNCTION PROGRAM END_PROGRAM
+VAR VAR_INPUT VAR_OUTPUT VAR_IN_OUT VAR_EXTERNAL VAR_GLOBAL VAR_ACCESS VAR_CONFIG END_VAR CONSTANT RETAIN NON_RETAIN AT IF THEN ELSIF ELSE END_IF
+CASE END_CASE FOR TO BY DO END_FOR WHILE END_WHILE REPEAT UNTIL END_REPEAT EXIT RETURN CONFIGURATION END_CONFIGURATION RESOURCE ON
+END_RESOURCE TASK WITH PRIORITY INTERVAL INT BOOL REAL TIME DINT SINT LINT UINT STRING TRUE FALSE TON TOF CTU R_TRIG AND OR NOT MOD XOR""".split())
+_WORD = re.compile(r"[A-Za-z_][A-Za-z0-9_]*")
+
+
+def _words(text):
+    """(start, end) of every word outside comments and string literals"""
+    out = []
+    i, n = 0, len(text)
+    while i < n:
+        if text.startswith("(*", i):
+            j = text.find("*)", i + 2)
+            i = n if j < 0 else j + 2
+        elif text[i] in "'\"":
+            j = text.find(text[i], i + 1)
+            i = n if j < 0 else j + 1
+        else:
+            m = _WORD.match(text, i)
+            if m:
+                out.append((m.start(), m.end()))
+                i = m.end()
+            else:
+                i += 1
+    return out
+
+
+def rename_all(text):
+    """every identifier gets a suffix of two letters; the suffixes walk through the alphabet, so the identifiers of a
+    unit together use every letter (a declaration and its uses get the same suffix: the names stay the same names)"""
+    suffix = {}
+    parts, last = [], 0
+    for a, b in _words(text):
+        w = text[a:b]
+        if w.upper() in RESERVED:
+            continue
+        k = w.lower()
+        if k not in suffix:
+            n = len(suffix)
+            suffix[k] = "_" + chr(97 + (2 * n) % 26) + chr(97 + (2 * n + 1) % 26)
+        parts.append(text[last:b] + suffix[k])
+        last = b
+    parts.append(text[last:])
+    return "".join(parts)
+
+
+def recase(text, rng):
+    parts, last = [], 0
+    for a, b in _words(text):
+        parts.append(text[last:a] + gram.case_variant(text[a:b], rng))
+        last = b
+    parts.append(text[last:])
+    return "".join(parts)
+
+
+def unit_clause(rep, cov, tier):
+    r = vlib.tlc_check("Unit.tla", "MC_Unit_1.cfg" if tier == "quick" else "MC_Unit_2gp.cfg", workers=4, name="c08_MC_Unit")
+    cov["states"] += r["states"]
+    cov["transitions"] += r["transitions"]
+    recs = [x for x in r["replay"] if x.get("R") == "unit"]
+    if tier != "quick":
+        recs = recs[::4]
+    cov["tlc_runs"].append({"cfg": "MC_Unit (case clause)", "states": r["states"], "units": len(recs)})
+    rng = random.Random(vlib.SEED + 8)
+    k = 3 if tier == "quick" else 4
+    cases, meta = [], []
+    letters = set()
+    for rec in recs:
+        base = rename_all(unitgen.render(rec["unit"])[0])
+        letters |= set(c for a, b in _words(base) for c in base[a:b].lower() if c.isalpha())
+        for v in range(k + 1):
+            t = base if v == 0 else recase(base, rng)
+            cases.append({"id": len(cases), "files": [{"name": "unit.st", "text": t}]})
+            meta.append((rec, v, base, t))
+    res = vlib.harness("analyze", cases)
+    ref = None
+    n = 0
+    for (rec, v, base, t), rr in zip(meta, res):
+        obs = ("crash" if ("panic" in rr or "abort" in rr or "timeout" in rr) else
+               (all(p["ok"] for p in rr.get("parse", [])), bool(rr.get("analyze_ok")), sorted(set(d["code"] for d in rr.get("analyze_diags", [])))))
+        if v == 0:
+            ref = obs
+            continue
+        n += 1
+        if obs != ref:
+            what = "crash" if obs == "crash" else ("rejected-by-the-parser" if ref != "crash" and ref[0] and not obs[0] else "verdict-or-codes-differ")
+            rep.add("unit-case:%s" % what, labels=set(e[0] for e in rec["edits"]) | {"unit-case"},
+                    detail={"edits": rec["edits"], "canonical": ref, "respelled": obs},
+                    replay={"canonical": base, "respelled": t, "cmd": "vph analyze"})
+    if len(letters) < 26:
+        raise vlib.ToolError("the identifiers of the unit corpus do not use every letter: %s" % "".join(sorted(letters)))
+    cov["unit_case_variants"] = n
+    cov["unit_case_letters"] = len(letters)
+    cov["traces_validated_against_impl"] += n
+
+
 def main():
     tier = sys.argv[1] if len(sys.argv) > 1 else vlib.TIER
     vlib.TIER = tier
@@ -128,6 +228,7 @@ def main():
                     replay={"canonical": gram.spell(d["toks"])[0], "respelled": text})
         if d0 is None:
             d0 = ds[len(ds) // 3]
+    unit_clause(rep, cov, tier)
     cov["single_site_words"] = ss["single_site_words"]
     cov["single_site_pairs"] = ss["single_site_pairs"]
     cov["keywords_exercised"] = sorted(ss["keywords_exercised"])
